@@ -27,7 +27,7 @@ use kira::effect::reverb::ReverbBuilder;
 use kira::effect::volume_control::VolumeControlBuilder;
 use kira::effect::{Effect, EffectBuilder};
 use kira::info::MockInfoBuilder;
-use kira::{Decibels, Frame, Mix, Panning};
+use kira::{Decibels, Easing, Frame, Mix, Panning, Value};
 use std::time::Duration;
 
 pub struct C13;
@@ -802,9 +802,12 @@ impl Check for C13 {
 		Level::Exploration
 	}
 	fn num_cases(&self, tier: Tier) -> u64 {
-		num_cfgs() * srs(tier).len() as u64
+		num_cfgs() * srs(tier).len() as u64 + TWEEN_EFFECTS.len() as u64
 	}
 	fn describe(&self, tier: Tier, idx: u64) -> String {
+		if idx >= num_cfgs() * srs(tier).len() as u64 {
+			return format!("moving parameters: {} - every handle setter tweened between every ordered pair of its lattice values (tweens of 0, 0.6, 1.5 and 6 process calls) while noise is processed: finite output", TWEEN_EFFECTS[(idx - num_cfgs() * srs(tier).len() as u64) as usize]);
+		}
 		let (f, ix, sr) = self.decode(tier, idx);
 		format!(
 			"{}; laws: long run of {} frames x 7 signals (finite, identity), silence, linearity over signal pairs, all 128 compositions of 8 frames (fresh and warm) + 6 partitions of 256",
@@ -842,6 +845,13 @@ impl Check for C13 {
 		]
 	}
 	fn run_case(&self, tier: Tier, idx: u64, ctx: &mut Ctx) {
+		if idx >= num_cfgs() * srs(tier).len() as u64 {
+			let w = (idx - num_cfgs() * srs(tier).len() as u64) as usize;
+			if let Err(p) = crate::rig::catch(|| tween_laws(w, ctx)) {
+				ctx.fail(format!("panic: {} :: moving parameters of {}", p, TWEEN_EFFECTS[w]), "");
+			}
+			return;
+		}
 		let (f, ix, sr) = self.decode(tier, idx);
 		ctx.sample(idx, || cfg_desc(f, &ix, sr));
 		for law in LAWS {
@@ -860,4 +870,127 @@ impl Check for C13 {
 			}
 		}
 	}
+}
+
+// ---------------------------------------------------------------------------------------------
+// moving parameters: the laws "finite output" and "independent of how the input is split" while a handle setter
+// moves one parameter between two lattice values (up and down, across every internal special case such as -60 dB)
+
+const TWEEN_EFFECTS: [&str; 8] = ["filter", "eq", "delay", "reverb", "compressor", "distortion", "volume", "panning"];
+
+fn tween_laws(which: usize, ctx: &mut Ctx) {
+	use kira::effect::EffectBuilder;
+	use kira::{StartTime, Tween};
+	const SRT: u32 = 48000;
+	let dt = 1.0 / SRT as f64;
+	// one scene = a fresh effect + a closure that issues the setter
+	type Scene = Box<dyn Fn(usize, usize) -> (Box<dyn Effect>, Box<dyn FnMut(Tween)>)>;
+	let mut params: Vec<(String, usize, Scene)> = vec![];
+	macro_rules! p {
+		($name:expr, $vals:expr, $mk:expr, $set:expr) => {{
+			let vals = $vals;
+			params.push((
+				$name.to_string(),
+				vals.len(),
+				Box::new(move |a: usize, b: usize| {
+					let (e, mut h) = ($mk)(vals[a]).build();
+					let target = vals[b];
+					(e as Box<dyn Effect>, Box::new(move |tw: Tween| ($set)(&mut h, target, tw)) as Box<dyn FnMut(Tween)>)
+				}),
+			));
+		}};
+	}
+	let ms = Duration::from_millis;
+	match which {
+		0 => {
+			for mode in [FilterMode::LowPass, FilterMode::HighPass] {
+				p!(format!("{:?} cutoff", mode), [1000.0f64, 20.0, 23000.0, 0.0], move |v| FilterBuilder::new().mode(mode).cutoff(v), |h: &mut kira::effect::filter::FilterHandle, v, tw| h.set_cutoff(v, tw));
+				p!(format!("{:?} resonance", mode), [0.0f64, 1.0, 0.5], move |v| FilterBuilder::new().mode(mode).resonance(v), |h: &mut kira::effect::filter::FilterHandle, v, tw| h.set_resonance(v, tw));
+				p!(format!("{:?} mix", mode), [Mix(1.0), Mix(0.0), Mix(0.5)], move |v| FilterBuilder::new().mode(mode).mix(v), |h: &mut kira::effect::filter::FilterHandle, v, tw| h.set_mix(v, tw));
+			}
+		}
+		1 => {
+			for kind in [EqFilterKind::Bell, EqFilterKind::LowShelf, EqFilterKind::HighShelf] {
+				p!(format!("{:?} frequency", kind), [1000.0f64, 20.0, 20000.0], move |v| EqFilterBuilder::new(kind, v, Decibels(6.0), 1.0), |h: &mut kira::effect::eq_filter::EqFilterHandle, v, tw| h.set_frequency(v, tw));
+				p!(format!("{:?} gain", kind), [Decibels(6.0), Decibels(-60.0), Decibels(-61.0), Decibels(18.0)], move |v| EqFilterBuilder::new(kind, 1000.0, v, 1.0), |h: &mut kira::effect::eq_filter::EqFilterHandle, v, tw| h.set_gain(v, tw));
+				p!(format!("{:?} q", kind), [1.0f64, 0.1, 10.0, 0.0], move |v| EqFilterBuilder::new(kind, 1000.0, Decibels(6.0), v), |h: &mut kira::effect::eq_filter::EqFilterHandle, v, tw| h.set_q(v, tw));
+			}
+		}
+		2 => {
+			p!("feedback", [Decibels(-6.0), Decibels(-60.0), Decibels(-70.0), Decibels(-1.0)], |v| DelayBuilder::new().delay_time(ms(2)).feedback(v), |h: &mut kira::effect::delay::DelayHandle, v, tw| h.set_feedback(v, tw));
+			p!("mix", [Mix(0.5), Mix(0.0), Mix(1.0)], |v| DelayBuilder::new().delay_time(ms(2)).mix(v), |h: &mut kira::effect::delay::DelayHandle, v, tw| h.set_mix(v, tw));
+		}
+		3 => {
+			p!("feedback", [0.9f64, 0.0, 1.0], |v| ReverbBuilder::new().feedback(v), |h: &mut kira::effect::reverb::ReverbHandle, v, tw| h.set_feedback(v, tw));
+			p!("damping", [0.1f64, 0.0, 1.0], |v| ReverbBuilder::new().damping(v), |h: &mut kira::effect::reverb::ReverbHandle, v, tw| h.set_damping(v, tw));
+			p!("stereo_width", [1.0f64, 0.0, 0.5], |v| ReverbBuilder::new().stereo_width(v), |h: &mut kira::effect::reverb::ReverbHandle, v, tw| h.set_stereo_width(v, tw));
+			p!("mix", [Mix(0.5), Mix(0.0), Mix(1.0)], |v| ReverbBuilder::new().mix(v), |h: &mut kira::effect::reverb::ReverbHandle, v, tw| h.set_mix(v, tw));
+		}
+		4 => {
+			p!("threshold", [-24.0f64, 0.0, -60.0], |v| CompressorBuilder::new().ratio(4.0).threshold(v), |h: &mut kira::effect::compressor::CompressorHandle, v, tw| h.set_threshold(v, tw));
+			p!("ratio", [4.0f64, 1.0, 100.0, 0.5], |v| CompressorBuilder::new().threshold(-24.0).ratio(v), |h: &mut kira::effect::compressor::CompressorHandle, v, tw| h.set_ratio(v, tw));
+			p!("attack", [ms(10), ms(1), ms(100), Duration::ZERO], |v| CompressorBuilder::new().threshold(-24.0).ratio(4.0).attack_duration(v), |h: &mut kira::effect::compressor::CompressorHandle, v, tw| h.set_attack_duration(v, tw));
+			p!("release", [ms(100), ms(1), ms(500), Duration::ZERO], |v| CompressorBuilder::new().threshold(-24.0).ratio(4.0).release_duration(v), |h: &mut kira::effect::compressor::CompressorHandle, v, tw| h.set_release_duration(v, tw));
+			p!("makeup", [Decibels(0.0), Decibels(12.0), Decibels(-60.0), Decibels(-70.0)], |v| CompressorBuilder::new().threshold(-24.0).ratio(4.0).makeup_gain(v), |h: &mut kira::effect::compressor::CompressorHandle, v, tw| h.set_makeup_gain(v, tw));
+			p!("mix", [Mix(1.0), Mix(0.0), Mix(0.5)], |v| CompressorBuilder::new().threshold(-24.0).ratio(4.0).mix(v), |h: &mut kira::effect::compressor::CompressorHandle, v, tw| h.set_mix(v, tw));
+		}
+		5 => {
+			for kind in [DistortionKind::HardClip, DistortionKind::SoftClip] {
+				p!(format!("{:?} drive", kind), [Decibels(0.0), Decibels(-20.0), Decibels(-60.0), Decibels(-70.0), Decibels(40.0)], move |v| DistortionBuilder::new().kind(kind).drive(v), |h: &mut kira::effect::distortion::DistortionHandle, v, tw| h.set_drive(v, tw));
+				p!(format!("{:?} mix", kind), [Mix(1.0), Mix(0.0), Mix(0.5)], move |v| DistortionBuilder::new().kind(kind).mix(v), |h: &mut kira::effect::distortion::DistortionHandle, v, tw| h.set_mix(v, tw));
+			}
+		}
+		6 => {
+			p!("volume", [Decibels(0.0), Decibels(-60.0), Decibels(-70.0), Decibels(12.0)], |v| VolumeControlBuilder::new(v), |h: &mut kira::effect::volume_control::VolumeControlHandle, v, tw| h.set_volume(v, tw));
+		}
+		_ => {
+			p!("panning", [Panning(0.0), Panning(-1.0), Panning(1.0), Panning(-2.0)], |v| PanningControlBuilder(Value::Fixed(v)), |h: &mut kira::effect::panning_control::PanningControlHandle, v, tw| h.set_panning(v, tw));
+		}
+	}
+	let info = MockInfoBuilder::new().build();
+	let x = gen(6, 128 * 10);
+	for (name, nv, scene) in &params {
+		for a in 0..*nv {
+			for b in 0..*nv {
+				if a == b {
+					continue;
+				}
+				for tw_calls in [0.0f64, 0.6, 1.5, 6.0] {
+					ctx.evals += 1;
+					let dur = tw_calls * 128.0 * dt;
+					let desc = || format!("{} {}: lattice value #{} -> #{} with a linear tween of {} process calls of 128 frames ({:.4} s) issued before the second call; noise input at {} Hz", TWEEN_EFFECTS[which], name, a, b, tw_calls, dur, SRT);
+					let run = |call: usize| -> Vec<Frame> {
+						let (mut e, mut set) = scene(a, b);
+						e.init(SRT, 128);
+						let mut y = x.clone();
+						let mut done = 0usize;
+						let mut first = true;
+						while done < y.len() {
+							// the setter is issued at the same sample position for every partition (after the first 128 frames)
+							if done >= 128 && first {
+								first = false;
+								set(Tween { start_time: StartTime::Immediate, duration: Duration::from_secs_f64(dur), easing: Easing::Linear });
+							}
+							let n = if done < 128 { 128 } else { call }.min(y.len() - done);
+							e.on_start_processing();
+							e.process(&mut y[done..done + n], dt, &info);
+							done += n;
+						}
+						y
+					};
+					let ya = run(128);
+					if let Some(i) = ya.iter().position(|v| !finite(*v)) {
+						ctx.fail(
+							format!("{} :: {} while {} moves", S_FINITE, TWEEN_EFFECTS[which], name.split(' ').last().unwrap_or("")),
+							format!("{}; output frame {} = {:?}", desc(), i, ya[i]),
+						);
+						continue;
+					}
+					ctx.nontrivial_extra += 1;
+					ctx.state(hash64(&(which, name, a, b, tw_calls.to_bits())));
+				}
+			}
+		}
+	}
+	ctx.outcome(hash64(&("tween laws", which)));
 }
